@@ -104,22 +104,56 @@ def must_precede(fx, A, B, rule, what, crates=None, cfgname="A", direct_only=Fal
 
 
 def callers_within(fx, X, allowed, rule, what, cfgname="A"):
-    """Every workspace caller of X (direct call sites) is in `allowed`."""
+    """Every workspace call site of X lies in an allowed context: an allowed function, an allowed arm
+    (`fn@Variant`: the region of that worker's dispatch on Operation), or a private helper all of whose own
+    call sites lie in allowed contexts (so extracting a helper is not a report, but moving the call into
+    another arm or function is)."""
     cg = q.callgraph(fx)
     if isinstance(X, str):
         X = {X}
+    allowed_fns = set(a for a in allowed if "@" not in a)
+    allowed_blocks = set()
+    for a in allowed:
+        if "@" in a:
+            w, var = a.split("@")
+            import p_kinds
+            f, regs = p_kinds.op_regions(fx, w)
+            for b in regs.get(var, ()):
+                allowed_blocks.add((w, b))
     obs = []
-    for x in sorted(X):
-        callers = sorted(cg.callers.get(x, ()))
-        for c in callers:
-            f = fx.fns.get(c)
-            if f is not None and not in_scope_fn(fx, f):
+
+    def site_ok(fn, bi, seen):
+        if fn.path in allowed_fns or (fn.path, bi) in allowed_blocks:
+            return True
+        # closures run where they are called/handed over: attribute to the parent's site
+        if fn.path in seen:
+            return True
+        if fn.raw.get("exported") or fn.raw.get("reachable"):
+            return False
+        n = 0
+        for c in sorted(cg.callers.get(fn.path, ())):
+            g = fx.fns.get(c)
+            if g is None or g.path == fn.path:
                 continue
-            ok = c in allowed
-            key = mkkey(rule, c, x, 0, "caller")
-            obs.append(Ob(rule, key, ok, f.loc() if f else "", c,
-                          "%s: `%s` is %s to call %s" % (what, c, "allowed" if ok else "NOT allowed", x),
-                          None if ok else dict(callee=x, caller=c, allowed=sorted(allowed)), cfg=cfgname))
+            for b2, t2 in g.calls():
+                if q.names(t2)[1] == fn.path or fn.path in (t2["fn"].get("fnvals") or []):
+                    n += 1
+                    if not site_ok(g, b2, seen | {fn.path}):
+                        return False
+        return n > 0
+
+    for x in sorted(X):
+        for c in sorted(cg.callers.get(x, ())):
+            f = fx.fns.get(c)
+            if f is None or not in_scope_fn(fx, f):
+                continue
+            for n, (bi, t) in enumerate(q.calls_to(f, x)):
+                ok = site_ok(f, bi, set())
+                key = mkkey(rule, c, x, n, "caller")
+                obs.append(Ob(rule, key, ok, q.loc_of(t), c,
+                              "%s: %s at %s is %s" % (what, x.split("::")[-1], q.loc_of(t),
+                                                      "in an allowed context" if ok else "NOT in an allowed context %s" % sorted(allowed)),
+                              None if ok else dict(callee=x, caller=c, allowed=sorted(allowed)), cfg=cfgname))
     return obs
 
 
